@@ -124,7 +124,9 @@ func (s *Sizes) Sizeof(T types.Type) int64 {
 		offsets := s.Offsetsof(fields)
 		a := s.Alignof(T)
 		lsz := s.Sizeof(fields[n-1].Type())
-		if lsz == 0 {
+		if lsz == 0 && offsets[n-1] > 0 {
+			// gc: the last field of a non-zero-sized struct is not
+			// allowed to have size 0.
 			lsz = 1
 		}
 		z := offsets[n-1] + lsz
